@@ -6,6 +6,9 @@ for the property against /repo with the patch applied and record whether it was 
 import json, os, shutil, subprocess, sys, xml.etree.ElementTree as ET, tempfile, time
 
 RECHECK = '--recheck' in sys.argv
+CONFIRM_ONLY = '--confirm-only' in sys.argv
+if CONFIRM_ONLY:
+    sys.argv.remove('--confirm-only')
 if RECHECK:
     sys.argv.remove('--recheck')
 pid, wt = sys.argv[1], sys.argv[2]
@@ -85,6 +88,16 @@ if confirmed:
     for f in ('patch.diff', 'demo.py', 'meta.json'):
         if os.path.exists(os.path.join(seed, f)):
             shutil.copy(os.path.join(seed, f), os.path.join(dst, f))
+    if CONFIRM_ONLY:
+        meta = {}
+        try:
+            meta = json.load(open(os.path.join(dst, 'meta.json')))
+        except Exception:
+            pass
+        meta['confirmation'] = report
+        json.dump(meta, open(os.path.join(dst, 'meta.json'), 'w'), indent=1)
+        print('CONFIRMED (check against /repo not run yet)')
+        sys.exit(0)
     # run the registered check against /repo with the patch applied
     rc, st = sh(['git', '-C', '/repo', 'status', '--porcelain'])
     assert not [l for l in st.splitlines() if not l.startswith('??')], '/repo is not clean: ' + st
